@@ -16,8 +16,10 @@ import sys
 
 VERIF = os.path.dirname(os.path.dirname(os.path.abspath(__file__)))
 SCRATCH = "/tmp/srcmut"
-TARGETS = ["Proofs/SrcFmFacts.vo", "Proofs/SrcCtcFacts.vo", "Proofs/SrcOpsFacts.vo", "Proofs/SrcVpFacts.vo",
-           "Proofs/SrcJsonFacts.vo", "Proofs/SrcSplitFacts.vo", "Proofs/SrcObjFacts.vo"]
+TARGETS = ["Proofs/SrcFmFacts.vo", "Proofs/SrcTreeOpsFacts.vo", "Proofs/SrcCtcFacts.vo", "Proofs/SrcEstimateFacts.vo",
+           "Proofs/SrcCoreFacts.vo", "Proofs/SrcVpFacts.vo", "Proofs/SrcJsonFacts.vo", "Proofs/SrcSplitFacts.vo",
+           "Proofs/SrcObjFacts.vo", "Proofs/SrcTieC03.vo", "Proofs/SrcTieC05.vo", "Proofs/SrcTieC13.vo",
+           "Proofs/SrcTieC14.vo", "Proofs/SrcTieC16.vo", "Proofs/SrcTieC18.vo"]
 READ = ["models/feature_model.py", "operations/fm_", "transformations/json_writer.py"]
 
 
@@ -53,8 +55,9 @@ def main():
             open(f, "w").write(t)
         env = f"VERIF_REPO_PKG={SCRATCH}/repo/flamapy/metamodels/fm_metamodel VERIF_GEN_DIR={SCRATCH}/coq/Gen"
         rc, o = sh(f"{env} /venv/bin/python {VERIF}/tools/py2coq.py all")
+        bad = [ln for ln in o.splitlines() if "CANNOT TRANSLATE" in ln]
         if rc != 0:
-            out[mid] = "untranslatable: " + o.strip().splitlines()[0][:160]
+            out[mid] = "untranslatable: " + "; ".join(b.split("CANNOT TRANSLATE", 1)[1].strip()[:110] for b in bad[:3])
         elif all(open(f).read() == t for f, t in base.items()):
             out[mid] = "same-text"
         else:
